@@ -22,6 +22,8 @@ import (
 	"fmt"
 	"math/bits"
 	"runtime/debug"
+	"sync/atomic"
+	"time"
 	"unsafe"
 
 	"github.com/ProjectSerenity/firefly/kernel"
@@ -556,6 +558,33 @@ type pmmvEnv struct {
 	maps         []pmmvMapCall
 	tooBig       bool
 	prevFault    bool
+	progress     int64 // bumped at every install; read by the watchdog
+	stopped      int32
+}
+
+// watchdog ends the process when no new configuration has been installed for
+// a long time (a loop in the code under test that does not terminate). It is
+// never a verdict: vlib records it and vcheck re-runs the announced case alone
+// with its own, larger budget.
+func (e *pmmvEnv) watchdog(run *vlib.Run) {
+	limit := 40
+	if run.Thorough() {
+		limit = 150
+	}
+	if run.Single() {
+		limit = 100
+	}
+	go func() {
+		last, idle := atomic.LoadInt64(&e.progress), 0
+		for atomic.LoadInt32(&e.stopped) == 0 {
+			time.Sleep(time.Second)
+			if cur := atomic.LoadInt64(&e.progress); cur != last {
+				last, idle = cur, 0
+			} else if idle++; idle > limit {
+				run.Watchdog(fmt.Sprintf("no progress for %d s inside one pmm configuration", limit))
+			}
+		}
+	}()
 }
 
 func pmmvNewEnv() *pmmvEnv {
@@ -579,6 +608,7 @@ func (e *pmmvEnv) reset() {
 }
 
 func (e *pmmvEnv) close() {
+	atomic.StoreInt32(&e.stopped, 1)
 	e.reset()
 	e.info.Free()
 	reserveRegionFn = vmm.EarlyReserveRegion
@@ -591,6 +621,7 @@ func (e *pmmvEnv) close() {
 // before a PROT_NONE page, points the multiboot package at it and installs
 // the two seams.
 func (e *pmmvEnv) install(cfg *pmmvConfig) {
+	atomic.AddInt64(&e.progress, 1)
 	e.reset()
 	e.info.Fill(0xEE)
 	multiboot.SetInfoPtr(e.info.PlaceTail(pmmvBuildInfo(cfg)))
